@@ -306,7 +306,8 @@ OpObs(r, val) ==
                             O("C14", "fail.not_oom:" \o r.op, Has(r.res, "oom")),
                             \* ... and not after enough space has been freed
                             O("C14", "retry.ok:" \o r.op, ~aux.expectOk),
-                            O("C07", "conc.failed:" \o r.op, FALSE),
+                            \* (out of memory is judged by C14; managers of the concurrent histories may be small)
+                            O("C07", "conc.failed:" \o r.op, Has(r.res, "oom")),
                             O("C20", "config.failed:" \o r.op, FALSE) >>
   ELSE
     LET g == r.g
@@ -452,6 +453,18 @@ TrExport ==
              O("C15", "export.ok", ~Has(Rec[l], "res")) >>)
   /\ UNCHANGED <<kind, n, l2v, hs, gcN, roN, aux>>
 
+(* eval with many variables: f = x_i <op> x_j evaluated under an assignment
+   that gives x_i the value ai and x_j the value aj (self-contained event) *)
+BoolOp(op, a, b) ==
+  CASE op = "and" -> a /\ b [] op = "or" -> a \/ b [] op = "xor" -> a # b [] op = "equiv" -> a = b
+    [] op = "nand" -> ~(a /\ b) [] op = "nor" -> ~(a \/ b) [] op = "imp" -> (~a) \/ b
+    [] op = "imp_strict" -> (~a) /\ b
+TrEvalW ==
+  /\ Ev("evalw")
+  /\ Step(<< O("C02", "eval.wide", Has(Rec[l], "ai") /\
+                   Rec[l].res = BoolOp(Rec[l].op, Rec[l].ai = 1, Rec[l].aj = 1)) >>)
+  /\ UNCHANGED <<kind, n, l2v, hs, gcN, roN, aux>>
+
 (* a collection that ran concurrently with operations of other threads *)
 TrCGc ==
   /\ Ev("cgc")
@@ -578,7 +591,7 @@ TrInit ==
 TrNext ==
   \/ TrReset \/ TrAddVars \/ TrOp \/ TrCofNone \/ TrClone \/ TrDrop
   \/ TrGc \/ TrReorder \/ TrObs \/ TrSnap \/ TrAdopt \/ TrConstructMismatch
-  \/ TrRows \/ TrBegin \/ TrPick \/ TrUni \/ TrCount \/ TrExpectOk \/ TrCGc \/ TrProbe \/ TrExport
+  \/ TrRows \/ TrBegin \/ TrPick \/ TrUni \/ TrCount \/ TrExpectOk \/ TrCGc \/ TrProbe \/ TrExport \/ TrEvalW
 
 TrSpec == TrInit /\ [][TrNext]_tvars
 
